@@ -39,7 +39,7 @@ void build() {
         ref = rnd_bytes(size);
         auto f = FSYS->open("/u0", O_CREAT | O_RDWR); f->pwrite(ref.data(), ref.size(), 0);
         F = new_aligned_file_adaptor(f, alignment, align_memory, true);
-        monitor_alignment = true; fixed_size = fault_class;
+        monitor_alignment = true; fixed_size = false;
         snprintf(desc, sizeof desc, "aligned(alignment %u, align_memory %d) over a %zu-byte file", alignment, (int)align_memory, size);
     } else {
         int n = 2 + sim::rnd(4);
@@ -86,7 +86,7 @@ void build() {
             uint64_t x = sim::frnd(100);
             if (x < 4) { a.err = EIO; n_faults++; sim::fault_fired(r.kind == simfs::OP_PREAD ? "underlay_read_EIO" : "underlay_write_EIO"); }
             else if (x < 12 && r.len > 1) { a.limit = 1 + sim::frnd(r.len - 1); n_faults++; sim::fault_fired(r.kind == simfs::OP_PREAD ? "underlay_short_read" : "underlay_short_write"); }
-        } else if (r.kind == simfs::OP_FTRUNCATE && sim::frnd(10) == 0) { a.err = EIO; n_faults++; sim::fault_fired("underlay_ftruncate_EIO"); }
+        }
         return a;
     };
 }
@@ -116,7 +116,7 @@ void work(int) {
         if (sim::rnd(5) == 0) len = (size - off) + sim::rnd(100);                             // runs past the end
         if (len > buf.size()) len = buf.size();
         bool wr = sim::rnd(2), vec = sim::rnd(3) == 0 && kind != 0 && kind != 4;               // the alignment adaptor supports pread/pwrite only
-        if (fault_class && wr && !fixed_size) wr = false;
+        if (fault_class && wr && !fixed_size && off + len > size) len = size - off;     // with injected faults the file is not extended (its size would become undetermined)
         uint64_t expect = std::min<uint64_t>(len, size - off);
         if (wr && !fixed_size) expect = len;
         std::vector<struct iovec> iov;
